@@ -868,7 +868,8 @@ class t2listing(object):
 
     def next_tablename(self, tablename):
         """Returns name of table after the specified one, or None if it is the last."""
-        if tablename is None: return self._tablenames[0]
+        if tablename is None:
+            return self._tablenames[0] if self._tablenames else None
         i = self._tablenames.index(tablename)
         if i < len(self._tablenames)-1: return self._tablenames[i+1]
         else: return None
@@ -885,17 +886,19 @@ class t2listing(object):
         tablename = 'element'
         self.read_header() # only one header at each time
         last_tablename = None
+        last_known_tablename = None
         while tablename:
             if tablename in self.skip_tables: self.skip_table(tablename)
             elif tablename in self._table: self.read_table(tablename)
             else: # tables not present at first time step
-                next_tablename = self.next_tablename(last_tablename)
+                next_tablename = self.next_tablename(last_known_tablename)
                 if next_tablename:
                     self.skip_to_table(next_tablename, last_tablename, 1)
                     # now at the start of the next known table, which still has to be read:
                     tablename = next_tablename
                     continue
             last_tablename = tablename
+            if tablename in self._tablenames: last_known_tablename = tablename
             tablename = self.next_table()
 
     def read_tables_TOUGHplus(self):
